@@ -117,7 +117,7 @@ def translate(calls, dst_root, src_root, owners, meta):
                 add("rename", b, f"rename:{enc_path(a)}:{enc_path(b)}:{cid}:{size}:{mt}")
         elif call == "unlink":
             r = rel(q[0]) if q else None
-            if r: add("unlink", r, f"unlink:{enc_path(r)}")
+            if r: add("unlinkTemp" if r.endswith(".sy.tmp") and owner_of(r) != r else "unlink", r, f"unlink:{enc_path(r)}")
         elif call == "unlinkat":
             fp = ts.fd_paths(args)
             base = fp[0] if fp else None
@@ -131,8 +131,17 @@ def translate(calls, dst_root, src_root, owners, meta):
     return steps, per_owner, maybe
 
 def collapse(kinds):
+    # `let _ = fs::remove_file(&temp_dest)` directly before the working file is created (repo fix d0ec669) is part of the model's
+    # createTemp step: Steps.createTemp_absorbs_unlink proves  createTemp ∘ unlink = createTemp  on every node.  Any other unlink
+    # of a working file (the guard's clean-up after a failure) stays an unlink.
+    ks = []
+    for i, k in enumerate(kinds):
+        if k == "unlinkTemp":
+            if i + 1 < len(kinds) and kinds[i + 1] == "createTemp": continue
+            k = "unlink"
+        ks.append(k)
     out = []
-    for k in kinds:
+    for k in ks:
         if out and out[-1] == k and k in ("grow", "mkdir", "unlink"): continue
         out.append(k)
     return out
@@ -256,6 +265,13 @@ def run_c05(tier, seed, work, ncases):
             if res is not None and rc is not None:
                 mc, _ = model_dst_canon(res["dst"]); rcn, _ = real_dst_canon(post_dst, contents)
                 diff = {r: (rcn.get(r), mc.get(r)) for r in set(mc) | set(rcn) if mc.get(r) != rcn.get(r)}
+                # the recorded finding (Refine.refines_counterexample_temp_in_use): a destination entry of the user that bears the working-file
+                # name of a block-delta-updated neighbour is removed; reported under its own signature, not as a disagreement of the model
+                in_use = [r for r in diff if r.endswith(".sy.tmp") and r in pre_dst and pre_dst[r]["k"] != "d" and tasks.get(r[:-7]) == "u"
+                          and rcn.get(r) is None and any("createTemp" in k for k in [per_owner.get(r[:-7], [])])]
+                for r in in_use:
+                    del diff[r]
+                    rep.oracle_fail("C05/user-file-named-like-temp", f"a destination file of the user named {os.path.basename(r)} next to a block-delta-updated {os.path.basename(r[:-7])} was removed (exit {rc})", desc)
                 if diff and rc == 0: dis.append(f"result differs from the sequential prediction: {dict(list(sorted(diff.items()))[:3])}")
             if dis: rep.disagree({"what": dis, **desc})
             if rc == 0:
@@ -287,6 +303,33 @@ def run_c05(tier, seed, work, ncases):
             left = [r for r in post if r.endswith(".sy.tmp")]
             if left: rep.oracle_fail("C05/working-file-left", f"working files remain: {left[:3]}", desc)
             shutil.rmtree(case_dir, ignore_errors=True)
+        # ---- targeted: siblings whose names are at the file-name length limit and share a long prefix (a working-file name derived by cutting the
+        #      name would be shared); the property itself is the oracle: the -j 8 outcome must be the -j 1 outcome, whatever that is (on a tree where the
+        #      working file cannot be created both runs fail alike and leave the destination as it was)
+        for ci in range(1 if tier == "quick" else 6):
+            t = BASE_T * 10**9; src, dst = {}, {}
+            stem = "L" + "".join(rng.pick("abcdefgh") for _ in range(247))
+            names = [stem[:247] + c for c in "xy"] + [stem + tail for tail in ("a", "b", "cc", "cd", "eeeeeee", "eeeeeef")]     # 248 bytes; 249 .. 255 bytes
+            for nm in names:
+                d = rng.bytes(4096) * rng.pick([200, 256, 300]); j = rng.range(1024, len(d) - 1)
+                src[nm] = F(d, t + 90 * 10**9); dst[nm] = F(d[:j] + bytes([d[j] ^ 0xFF]) + d[j + 1:], t)
+            outcome = {}
+            for jn in ("1", "8"):
+                case_dir = os.path.join(work, f"longname{ci}-j{jn}"); src_root, dst_root = os.path.join(case_dir, "src"), os.path.join(case_dir, "dst")
+                materialize(src_root, src, {}); materialize(dst_root, dst, {})
+                rc, out, err = run_sy([src_root, dst_root, "--json", "-j", jn], case_dir, env_extra={"SY_VERIF_DELTA_THRESHOLD": "4096", "SY_VERIF_BLOCK_SIZE": "256"})
+                post = snapshot(dst_root, contents); s_ = snapshot(src_root, contents)
+                outcome[jn] = (rc, {r: (n_["k"], n_.get("cid")) for r, n_ in post.items()})
+                if rc == 0:
+                    wrong = sorted(r for r, n_ in s_.items() if (post.get(r) or {}).get("cid") != n_["cid"])
+                    if wrong: rep.oracle_fail("C05/update-lost", f"exit 0 with -j {jn} but {len(wrong)} long-named files do not hold the source content", {"case": ci, "seed": seed, "names": [len(x) for x in names]})
+                shutil.rmtree(case_dir, ignore_errors=True)
+            rep.case(("long-name-siblings", ci), True); rep.tag("targeted.long-name-siblings"); rep.tag("targeted.long-name-siblings.rc-j1=%s" % outcome["1"][0])
+            if outcome["1"] != outcome["8"]:
+                diff = sorted(r for r in set(outcome["1"][1]) | set(outcome["8"][1]) if outcome["1"][1].get(r) != outcome["8"][1].get(r))
+                rep.oracle_fail("C05/temp-collision/long-name-siblings",
+                                f"8 files with names of 248..255 bytes sharing a 247-byte prefix, each with one changed block, block-delta path: exit {outcome['1'][0]} with -j 1 but exit {outcome['8'][0]} with -j 8; {len(diff)} entries differ (name lengths {[len(x) for x in diff][:6]})",
+                                {"case": ci, "seed": seed, "stem": stem, "names": names, "env": {"SY_VERIF_DELTA_THRESHOLD": "4096", "SY_VERIF_BLOCK_SIZE": "256"}})
         # ---- the recorded residual finding: a user's own destination file literally named like the working file
         for ci in range(1 if tier == "quick" else 4):
             case_dir = os.path.join(work, f"tmpname{ci}"); src_root, dst_root = os.path.join(case_dir, "src"), os.path.join(case_dir, "dst")
